@@ -62,6 +62,7 @@ def run(ctx, repo):
     ctx.rule('R2', 'ranking key roles: (-best, x at best index, that + x before it); sort key (ranking_key, old position); '
                    'places copied on equal keys else index+1; place hides athletes without a clearance')
     ctx.rule('R3', '_old_pos is never read outside the sort key')
+    ctx.rule('R4', 'in the tie-for-first branch of _rank the state becomes jumpoff or drawn, never finished/won')
 
     # ---- R1
     n_sites = 0
@@ -250,6 +251,27 @@ def run(ctx, repo):
         ctx.finding('R2', '%s::Jumper.place::hides unplaced athletes' % HJ, HJ, pl.lineno,
                     "Jumper.place no longer returns '' for an athlete without a clearance and _place otherwise")
 
+    # ---- R4 a tie for first never ends the competition: in the tie-for-first branch of _rank only jumpoff / drawn are assigned
+    rk_fn = Cm.get('_rank')
+    if rk_fn is None:
+        raise AnalysisError('anchor vanished: _rank')
+    tie_ifs = [n for n in ast.walk(rk_fn) if isinstance(n, ast.If) and '_place == 1' in ast.unparse(n.test) and 'rankj[1]' in ast.unparse(n.test)]
+    if not tie_ifs:
+        ctx.finding('R4', '%s::HighJumpCompetition._rank::tie-for-first detection' % HJ, HJ, rk_fn.lineno,
+                    'no branch of _rank tests whether the second-ranked athlete also has place 1: a tie for first is not detected')
+    for ti in tie_ifs:
+        vals = set()
+        for st in ti.body:
+            for n in ast.walk(st):
+                if isinstance(n, ast.Assign) and any(isinstance(t, ast.Attribute) and t.attr == 'state' for t in n.targets):
+                    vals |= {x.value for x in ast.walk(n.value) if isinstance(x, ast.Constant) and isinstance(x.value, str)}
+        if vals and vals <= {'jumpoff', 'drawn'}:
+            ctx.ok('R4', 'tie for first leads to jumpoff or drawn only (%s)' % sorted(vals))
+        else:
+            ctx.finding('R4', '%s::HighJumpCompetition._rank::tie for first assigns %s' % (HJ, sorted(vals)), HJ, ti.lineno,
+                        'with a tie for first standing, _rank can set the state to %s: a competition must not end (finished / won) while two '
+                        'athletes share first place; the tie is broken by a jump-off or declared drawn' % sorted(vals - {'jumpoff', 'drawn'}),
+                        'all but one of the tied athletes went out by retiring')
     # ---- R3 _old_pos unobservable
     n_uses = 0
     for n in ast.walk(mod.tree):
